@@ -158,6 +158,9 @@ pub trait Governance: events::Events {
             "Not approved"
         );
 
+        // Remember the dispatch, so a cancel command arriving before the callback is not undone by it
+        self.operator_in_flight(&proposal_hash).set(true);
+
         self.operator_proposal_executed_event(
             &proposal_hash,
             &target,
@@ -323,6 +326,7 @@ pub trait Governance: events::Events {
             }
             ServiceGovernanceCommand::CancelOperatorApproval => {
                 self.operator_approvals(&proposal_hash).clear();
+                self.operator_in_flight(&proposal_hash).clear();
 
                 self.operator_cancelled_event(
                     &proposal_hash,
@@ -349,6 +353,10 @@ pub trait Governance: events::Events {
             time_lock_eta_mapper.is_empty(),
             "Time lock already scheduled"
         );
+        require!(
+            self.time_lock_in_flight(hash).is_empty(),
+            "Proposal execution in progress"
+        );
 
         let minimum_eta =
             self.blockchain().get_block_timestamp() + self.minimum_time_lock_delay().get();
@@ -366,6 +374,8 @@ pub trait Governance: events::Events {
         require!(!hash.is_empty(), "Invalid time lock hash");
 
         self.time_lock_eta(hash).clear();
+        // Also forget a dispatch that is in flight, so a failed call does not bring the proposal back
+        self.time_lock_in_flight(hash).clear();
     }
 
     fn finalize_time_lock(&self, hash: &ManagedByteArray<KECCAK256_RESULT_LEN>) -> u64 {
@@ -376,6 +386,8 @@ pub trait Governance: events::Events {
             self.blockchain().get_block_timestamp() >= eta,
             "Time lock not ready"
         );
+
+        self.time_lock_in_flight(hash).set(true);
 
         eta
     }
@@ -412,14 +424,20 @@ pub trait Governance: events::Events {
     ) {
         match call_result {
             ManagedAsyncCallResult::Ok(results) => {
+                self.time_lock_in_flight(hash).clear();
+
                 self.execute_proposal_success_event(hash, results);
             }
             ManagedAsyncCallResult::Err(err) => {
                 self.handle_callback_failure(caller, payments);
 
                 // Let call be retried in case of failure, mostly because async call
-                // can fail with out of gas since it can be triggered by anyone
-                self.time_lock_eta(hash).set(eta);
+                // can fail with out of gas since it can be triggered by anyone.
+                // Not if the proposal was cancelled while the call was in flight
+                if !self.time_lock_in_flight(hash).is_empty() {
+                    self.time_lock_in_flight(hash).clear();
+                    self.time_lock_eta(hash).set(eta);
+                }
 
                 self.execute_proposal_error_event(hash, err.err_code, err.err_msg);
             }
@@ -436,14 +454,20 @@ pub trait Governance: events::Events {
     ) {
         match call_result {
             ManagedAsyncCallResult::Ok(results) => {
+                self.operator_in_flight(hash).clear();
+
                 self.operator_execute_proposal_success_event(hash, results);
             }
             ManagedAsyncCallResult::Err(err) => {
                 self.handle_callback_failure(operator, payments);
 
                 // Let call be retried in case of failure, mostly because async call
-                // can fail with out of gas
-                self.operator_approvals(hash).set(true);
+                // can fail with out of gas.
+                // Not if the approval was cancelled while the call was in flight
+                if !self.operator_in_flight(hash).is_empty() {
+                    self.operator_in_flight(hash).clear();
+                    self.operator_approvals(hash).set(true);
+                }
 
                 self.operator_execute_proposal_error_event(hash, err.err_code, err.err_msg);
             }
@@ -535,6 +559,20 @@ pub trait Governance: events::Events {
     #[view(getOperatorApprovals)]
     #[storage_mapper("operator_approvals")]
     fn operator_approvals(
+        &self,
+        hash: &ManagedByteArray<KECCAK256_RESULT_LEN>,
+    ) -> SingleValueMapper<bool>;
+
+    #[view(getTimeLockInFlight)]
+    #[storage_mapper("time_lock_in_flight")]
+    fn time_lock_in_flight(
+        &self,
+        hash: &ManagedByteArray<KECCAK256_RESULT_LEN>,
+    ) -> SingleValueMapper<bool>;
+
+    #[view(getOperatorInFlight)]
+    #[storage_mapper("operator_in_flight")]
+    fn operator_in_flight(
         &self,
         hash: &ManagedByteArray<KECCAK256_RESULT_LEN>,
     ) -> SingleValueMapper<bool>;
